@@ -119,6 +119,7 @@ type FuncCtx struct {
 	unfoldFacts []string
 	paramList []paramInfo
 	keySorts map[string]string
+	curCallArgs []ast.Expr
 	noMerge  bool
 }
 
